@@ -1,8 +1,8 @@
 #!/bin/sh
-# tools/matrix_all.sh : every stored seeded change (rounds 1-10) against the quick checks named in its meta.json, each in a
+# tools/matrix_all.sh : every stored seeded change (rounds 1-11) against the quick checks named in its meta.json, each in a
 # scratch worktree of /repo (never in /repo itself)
 cd /verif
-for sd in seeded seeded2 seeded3 seeded4 seeded5 seeded6 seeded7 seeded8 seeded9 seeded10; do
+for sd in seeded seeded2 seeded3 seeded4 seeded5 seeded6 seeded7 seeded8 seeded9 seeded10 seeded11; do
   for d in $sd/C*; do
     id=$(basename $d)
     checks=$(python3 -c "import json;print(' '.join(json.load(open('$d/meta.json')).get('detected_by_quick_checks',['$id'])))")
